@@ -1,17 +1,23 @@
 """Shared machinery of C15 / C16 (specs/MetaCatalog.tla, harness sub-command replay-meta).
 
 Mode A: TLC exhaustively checks the design model (Dev = {}) of the catalogue commands for the property's
-invariants. Mode B: TLC-generated behaviours (every BFS path of a tiny universe + two seeded simulation
-profiles) carry, per step, the design's expected return class and state and - for the deviations of the
+invariants. Mode B: TLC-generated behaviours (every BFS path of a tiny universe + the systematic snapshot
+families - every path of measurement life-cycle commands with Snapshot / Persist / Restore at every position,
+after a set-up prefix - + two seeded simulation profiles) carry, per step, the design's expected return class and state and - for the deviations of the
 OPEN entries of known_findings.json (ImplDev) - the as-implemented prediction; they are replayed into real
-meta.Data instances (reference, snapshot/restore replica, shuffled-map replica, and the real storeFSM when
-the verif hook is present). The generated behaviours are cached (keyed by specification, configuration,
+meta.Data instances (reference, snapshot/restore replica, shuffled-map replica, fresh instances fed the same
+log, and the real storeFSM when the verif hook is present). The generated behaviours are cached (keyed by specification, configuration,
 tier, seed and ImplDev) so that the two checks share them."""
 import hashlib, json, os, re, time
 from concurrent.futures import ThreadPoolExecutor
 import vlib
 
 SPEC = "MetaCatalogMC"
+# Up to nine TLC JVMs run side by side (two exhaustive configurations + seven generators); the JVM's default
+# maximum heap is a quarter of the machine's memory EACH and the parallel collector lets it fill up, so on a
+# shared machine the kernel's OOM killer ends one of them (seen twice: "TLC error ...: None", exit 2). None of
+# the configurations needs more than a fraction of this bound.
+os.environ.setdefault("JAVA_TOOL_OPTIONS", "-Xmx3g")
 CFG = os.path.join(vlib.SPECS, "cfg")
 
 # as-implemented deviation of the specification -> what the harness reports -> property clause
@@ -20,22 +26,38 @@ REPORTED_PROPERTY = {
     "groups_not_clipped": "C16", "drop_rp_keeps_default": "C16", "expand_ptview_nil_db": "C16", "far_past_start_wraps": "C15",
     "clone_drops_mst_id": "C15", "clone_shares_replica_groups": "C15", "clone_shares_sql_nodes": "C15",
     "snapshot_wraps_far_past_start": "C15",
+    "shardtype_check_skips_same_name": "C15", "template_by_map_order": "C15", "cq_zero_lastrun_wraps": "C15",
+    "clone_shares_subscriptions": "C15",
 }
 
 # mutation seeds of the specification (Dev = {x} must violate the invariant); used by selftest()
 SEEDS_C16 = {
     "forget_maxshardid": "IdsUnique", "forget_maxsgid": "IdsUnique", "forget_maxmstid": "IdsUnique",
-    "prune_resets_counter": "IdsNeverReused", "shard_wrong_index": "RefsValid",
+    "shard_wrong_index": "RefsValid",
     "createdb_half_applies": "FailedCommandIsNoop",
     "groups_not_clipped": "GroupsDisjointAlignedSorted",
     "drop_rp_keeps_default": "DefaultPolicyExists", "expand_ptview_nil_db": "NoPanic",
 }
+# ... checked on the measurement life-cycle configuration (MetaCatalog.life.quick.cfg)
+# ... needs eight steps (create, delete, prune the group, create again): one partition, depth 9
+SEEDS_C16_DEEP = {
+    "prune_resets_counter": "IdsNeverReused",
+}
+SEEDS_C16_LIFE = {
+    "version_from_entries": "VersionsNeverReused",
+}
 SEEDS_C15 = {
-    "clone_drops_mst_id": ("SnapshotPointInTime", "SnapshotComplete"),
     "clone_shares_replica_groups": ("SnapshotPointInTime", "SnapshotComplete"),
     "clone_shares_sql_nodes": ("SnapshotPointInTime", "SnapshotComplete"),
     "snapshot_omits_maxshardid": ("SnapshotPointInTime", "SnapshotComplete"),
     "snapshot_omits_privileges": ("SnapshotPointInTime", "SnapshotComplete"),
+}
+# ... checked on the measurement life-cycle configuration (MetaCatalog.life.quick.cfg)
+SEEDS_C15_LIFE = {
+    "clone_drops_mst_id": ("SnapshotPointInTime", "SnapshotComplete"),      # needs a second measurement (id 1)
+    "shardtype_check_skips_marked": ("ShardTypeUniform", "WitnessIndependent", "TemplateIndependent"),
+    "shardtype_check_skips_same_name": ("ShardTypeUniform", "WitnessIndependent", "TemplateIndependent"),
+    "snapshot_drops_orphan_versions": ("SnapshotPointInTime", "SnapshotKeepsVersions", "SnapshotComplete"),
 }
 
 
@@ -114,10 +136,15 @@ def gen_behaviours(tier, seed):
     cfg_bfs = derive_cfg("MetaCatalog.bfs.export.cfg", **over)
     cfg_sim = derive_cfg("MetaCatalog.sim.cfg", **over)
     cfg_grp = derive_cfg("MetaCatalog.sim.groups.cfg", **over)
+    # systematic snapshot families: deeper in the thorough tier
+    deep = {} if tier == "quick" else {"Depth": "13"}
+    deep2 = {} if tier == "quick" else {"Depth": "10"}
+    cfg_l1 = derive_cfg("MetaCatalog.bfs.life1.cfg", **over, **deep)
+    cfg_l2 = derive_cfg("MetaCatalog.bfs.life2.cfg", **over, **deep2)
     try:
-        nsim = 70 if tier == "quick" else 1500
-        ngrp = 70 if tier == "quick" else 1500
-        key = hashlib.sha1((_spec_hash([cfg_bfs, cfg_sim, cfg_grp]) + f"|{tier}|{seed}|{devs}|{nsim}|{ngrp}").encode()).hexdigest()[:16]
+        nsim = 60 if tier == "quick" else 1500
+        ngrp = 60 if tier == "quick" else 1500
+        key = hashlib.sha1((_spec_hash([cfg_bfs, cfg_sim, cfg_grp, cfg_l1, cfg_l2]) + f"|{tier}|{seed}|{devs}|{nsim}|{ngrp}").encode()).hexdigest()[:16]
         cdir = os.path.join(vlib.WORK, "metacat-cache")
         os.makedirs(cdir, exist_ok=True)
         cpath = os.path.join(cdir, key + ".json")
@@ -130,6 +157,8 @@ def gen_behaviours(tier, seed):
                 pass
         jobs = {
             "bfs": lambda: vlib.run_tlc(SPEC, cfg_bfs, workers=6, timeout=1500),
+            "life1": lambda: vlib.run_tlc(SPEC, cfg_l1, workers=4, timeout=1500),
+            "life2": lambda: vlib.run_tlc(SPEC, cfg_l2, workers=4, timeout=1500),
             "sim": lambda: vlib.run_tlc(SPEC, cfg_sim, simulate=nsim, depth=30, seed=seed, timeout=2400),
             "sim2": lambda: vlib.run_tlc(SPEC, cfg_sim, simulate=nsim, depth=30, seed=seed + 7919, timeout=2400),
             "groups": lambda: vlib.run_tlc(SPEC, cfg_grp, simulate=ngrp, depth=30, seed=seed, timeout=2400),
@@ -150,6 +179,14 @@ def gen_behaviours(tier, seed):
             bfs = rnd.sample(bfs, cap)
         behaviours = [("bfs", h) for h in bfs]
         stats = {"impl_devs": devs, "bfs_export": {"generated": res["bfs"]["generated"], "traces": nb, "replayed": len(bfs)}}
+        for k in ("life1", "life2"):     # the systematic families are replayed in full in both tiers
+            tr = res[k]["traces"]
+            capk = 12000 if tier == "quick" else 60000
+            nk = len(tr)
+            if nk > capk:
+                tr = rnd.sample(tr, capk)
+            behaviours += [(k, h) for h in tr]
+            stats[k] = {"generated": res[k]["generated"], "traces": nk, "replayed": len(tr), "wall_s": round(res[k]["wall_s"], 1)}
         for k in ("sim", "sim2", "groups", "groups2"):
             tr = res[k]["traces"]
             capk = 450 if tier == "quick" else 6000
@@ -166,7 +203,7 @@ def gen_behaviours(tier, seed):
             os.unlink(os.path.join(cdir, f))
         return behaviours, stats
     finally:
-        for p in (cfg_bfs, cfg_sim, cfg_grp):
+        for p in (cfg_bfs, cfg_sim, cfg_grp, cfg_l1, cfg_l2):
             try:
                 os.unlink(p)
             except OSError:
@@ -235,7 +272,7 @@ def run_check(prop, tier, seed, exh_cfgs, assumptions):
         "samples": sample,
         "exhaustive": True,
         "evaluations": sum(r["cmds"] for r in results), "distinct_nontrivial": distinct,
-        "rule": "behaviours of MetaCatalog.tla (BFS paths of the tiny export config + two seeded simulation profiles); "
+        "rule": "behaviours of MetaCatalog.tla (BFS paths of the tiny export config + systematic snapshot families + two seeded simulation profiles); "
                 "evaluations = commands applied to the real catalogue and judged (return class, projected state, invariants, "
                 "replica dumps); distinct = distinct behaviours, every one applies >= 1 command",
         "tlc": {"exhaustive": exh, "generators": gstats},
@@ -268,13 +305,13 @@ def replay_file(prop, path, seed):
     return 0
 
 
-def selftest(prop, seeds, base_cfg, extra_ops=()):
+def selftest(prop, seeds, base_cfg, extra_ops=(), **over):
     """Every mutation seed / as-implemented deviation must make TLC produce a counterexample of the named invariant."""
     rc = 0
 
     def one(item):
         dev, inv = item
-        cfg = derive_cfg(base_cfg, Dev=tla_set([dev]), **({"add_ops": list(extra_ops)} if extra_ops else {}))
+        cfg = derive_cfg(base_cfg, Dev=tla_set([dev]), **({"add_ops": list(extra_ops)} if extra_ops else {}), **over)
         try:
             return dev, inv, vlib.run_tlc(SPEC, cfg, timeout=1500, workers=4)
         finally:
